@@ -35,7 +35,13 @@
    - QoS: the max-qos merge of the asynchronous wakeup is modelled (any dispatch_qos_t), the sync waiters push with
      qos 0 (what _dispatch_qos_from_pp gives without pthread QoS support), the override-only wakeups that change
      nothing but max_qos / RECEIVED_OVERRIDE are not modelled; reference counts are not modelled;
-   Not modelled (stated in the theorems' scope): suspension / inactive queues (C06), target-queue hierarchies (C03:
+   Scope: FLAT CLIENTS.  A call (dispatch_sync, dispatch_barrier_sync, dispatch_[barrier_]async, a worker picking up the lane or
+   a redirected item) begins only on a thread that is outside any call (`begin` needs pc Idle), and a callout is one step
+   from *_call to *_incall to its completion: an item never submits to its own queue from inside its callout (no drainer that
+   is at the same time an enqueuer, no nested dispatch_sync on the same queue).  "All interleavings" in the theorems means all
+   interleavings of such flat clients.  Also: because tail exchange and link are one step, the drainer's wait for an enqueuer
+   that has exchanged the tail but not yet linked its item (os_mpsc_get_next) has no counterpart here.
+   Not modelled (stated in the theorems' scope): suspension / inactive queues (C06), DISPATCH_BLOCK_BARRIER blocks, target-queue hierarchies (C03:
    do_targetq is a root queue, so there is no recursion and drains are redirecting), dispatch_async_and_wait,
    workloops, the manager queue, dispatch_apply's extra reservations (C10: they only take available width). *)
 From Coq Require Import ZArith Bool List.
